@@ -228,5 +228,11 @@ theorem encode_wrong_length (pp : BParams F) (x : List F) (h : x.length ≠ pp.m
     encode pp x = .error .encodingError := by
   unfold encode; simp [h]
 
+/-- a one-level toy code for the non-vacuity examples: `m = 2`, `A : 2×1`, base code of length 2,
+`B : 2×1`, `m_ext = 5` -/
+def toyParams (F : Type) [Field F] : BParams F :=
+  { m := 2, mExt := 5, aDims := [(2, 1)], bDims := [(2, 1)], start := [2], stop := [4],
+    aMats := [⟨[[(0, 3), (1, 4)]]⟩], bMats := [⟨[[(0, 1), (1, 2)]]⟩] }
+
 end LinCode
 end PCV
